@@ -448,6 +448,7 @@ func (p *parseVisitor) VisitSaveFromAccount(c *parser2.SaveFromAccountContext) *
 		}
 	}
 	p.PushAddress(*addr)
+	savedAddr := addr
 
 	typ, addr, compErr = p.VisitExpr(c.GetAcc(), false)
 	if compErr != nil {
@@ -458,6 +459,8 @@ func (p *parseVisitor) VisitSaveFromAccount(c *parser2.SaveFromAccountContext) *
 			"save monetary from account: the second expression should be of type 'account' instead of '%s'", typ))
 	}
 	p.PushAddress(*addr)
+	// the VM needs a balance entry for the account even if it is never used as a source
+	p.setNeededBalances(map[machine.Address]struct{}{*addr: {}}, savedAddr)
 
 	p.AppendInstruction(program2.OP_SAVE)
 
